@@ -183,7 +183,15 @@ def r1(model, rep):
             mdef = [x for x in ast.walk(fn) if isinstance(x, ast.Assign) and is_name(x.targets[0], mp)] if mp else []
             inv = {"dict(zip(sys._g.attrs['nodes'].values(),sys._g.attrs['nodes'].keys()))", "{v:kfork,vinsys._g.attrs['nodes'].items()}",
                    "{i:nforn,iinsys._g.attrs['nodes'].items()}"}
-            if not mdef or ast.unparse(mdef[0].value).replace('"', "'").replace(" ", "") not in inv:
+            def inverse_comp(v):
+                # {idx: name for name, idx in <nodes>.items()}, whatever the two names are
+                if isinstance(v, ast.DictComp) and len(v.generators) == 1 and not v.generators[0].ifs:
+                    g = v.generators[0]
+                    if isinstance(g.target, ast.Tuple) and len(g.target.elts) == 2 and all(isinstance(e, ast.Name) for e in g.target.elts) \
+                            and ast.unparse(g.iter).replace('"', "'").replace(" ", "") == "sys._g.attrs['nodes'].items()":
+                        return is_name(v.key, g.target.elts[1].id) and is_name(v.value, g.target.elts[0].id)
+                return False
+            if not mdef or (ast.unparse(mdef[0].value).replace('"', "'").replace(" ", "") not in inv and not inverse_comp(mdef[0].value)):
                 ok = False
                 rep.violation("R1", construct, "%s:%d" % (rel, calls[0].lineno), "edge endpoints are not mapped to names through the inverse of the 'nodes' registry (%s): deleted nodes leave index holes" % (ast.unparse(mdef[0].value) if mdef else "no map"), "edge endpoint map")
             e0, e1 = ast.unparse(a0.slice), ast.unparse(a1.slice)
